@@ -219,8 +219,12 @@ def native_check(c, registry, args):
         if c.functional:
             try:
                 spec_val = c.result_fn(*_pick(c.result_fn, ns_old, order))
-                ok = (result == spec_val) and (type(result) is type(spec_val)
-                                               or not isinstance(result, bool))
+                from .speclib import same
+                ok = same(result, spec_val) or (
+                    not isinstance(result, (bool, type(None))) and
+                    not isinstance(spec_val, (bool, type(None))) and
+                    isinstance(result, (int, float)) and isinstance(spec_val, (int, float)) and
+                    result == spec_val)
             except Exception as e:
                 ok = False
                 spec_val = repr(e)
